@@ -47,6 +47,8 @@ CLAIMED = {
             'formulas); z3 shows equal outputs for all values, for every monitor kind that supports both sides'),
     'C19': ('6.C19', 'grid-aligned step signals with symbolic values are fed to the dense-time and the discrete-time monitor; z3 shows the dense output at k*P equals the '
             'discrete output at sample k (and the README semantics) for all values, for every k whose future windows end inside the trace'),
+    'C20': ('6.C20', 'on each path of (evaluate; explain) over a symbolic violating trace the reported positions are concrete; z3 shows that no second trace agreeing on '
+            'those positions satisfies the specification at time 0, and that nothing is reported when the robustness is not negative'),
 }
 NA = {
     'C14': 'the quantifier ranges over strings and every string is consumed by the ANTLR4 ATN interpreter, which cannot be encoded or '
